@@ -365,3 +365,11 @@ func (fx *FX) errorText(st *State, c *CallCtx) {
 	}
 	fx.trivial("taint:error", "", !l.secret(), c.Pos, "error text built from secret-derived data")
 }
+
+// computeLabelsInline: an inlined body shares the caller's label state; parameters take the labels of the arguments.
+func (fx *FX) computeLabelsInline(caller *FX) {
+	if caller.labels == nil {
+		return
+	}
+	fx.labels = caller.labels
+}
